@@ -55,6 +55,10 @@ func (w *world) Run(t *rt.Tape, trace bool) *core.Result {
 	dir, _ := core.DrawDir(t, core.TCPCaps)
 	dir.LatMax /= 4
 	net.NewPipeConfig = func(from, to string) simnet.PipeConfig { return simnet.PipeConfig{AB: dir, BA: dir} }
+	// a third of the cases: the accept queues do not keep the dialling order (see simnet)
+	if t.Choose(rt.SGen, 3) == 0 {
+		net.AcceptReorder = 1 + t.Choose(rt.SGen, 3)
+	}
 	dialLat := t.Choose(rt.SGen, 3)
 	net.DialLatency = func(from, to string) time.Duration {
 		switch dialLat {
@@ -66,7 +70,7 @@ func (w *world) Run(t *rt.Tape, trace bool) *core.Result {
 		return time.Duration(rt.Choose(rt.SNet, 40)) * time.Millisecond
 	}
 	ps := make([]*party, n)
-	smp := sample{Parties: n, Conns: k, Net: core.DescribeDir(dir) + fmt.Sprintf(" dial-latency-mode=%d", dialLat)}
+	smp := sample{Parties: n, Conns: k, Net: core.DescribeDir(dir) + fmt.Sprintf(" dial-latency-mode=%d accept-queue-reorder=1/%d", dialLat, net.AcceptReorder)}
 	joinDelay := make([]time.Duration, n)
 	connDelay := make([]time.Duration, n)
 	// "every order and timing in which the parties start": mostly milliseconds apart, in some
